@@ -8,6 +8,7 @@ import (
 	"encoding/binary"
 	"fmt"
 	"sort"
+	"strings"
 
 	"github.com/ElrondNetwork/elrond-go/config"
 	"github.com/ElrondNetwork/elrond-go/core"
@@ -547,3 +548,58 @@ func verifSHBGenInfos(rt *rapid.T, s *verifSHBSetup, keys *verifSHBKeyGen, eligi
 	return infos, st
 }
 
+// verifSHBShardName renders a shard id ("meta" for the metachain).
+func verifSHBShardName(s uint32) string {
+	if s == core.MetachainShardId {
+		return "meta"
+	}
+	return fmt.Sprint(s)
+}
+
+// verifSHBDescribeInfos writes out the validator information of an epoch start block.
+func verifSHBDescribeInfos(infos []verifSHBInfo) string {
+	var sb strings.Builder
+	for _, in := range infos {
+		fmt.Fprintf(&sb, "%s:%s@%s/i%d/r%d ", verifSHBShort(in.PK), in.List, verifSHBShardName(in.Shard), in.Index, in.TempRating)
+	}
+	return sb.String()
+}
+
+// verifSHBDescribeCfg writes out a configuration (ordered lists per shard, shards ascending); leaving may be nil.
+func verifSHBDescribeCfg(el, wt, leaving map[uint32][]string) string {
+	var sb strings.Builder
+	ids := map[uint32]bool{}
+	for _, m := range []map[uint32][]string{el, wt, leaving} {
+		for s := range m {
+			ids[s] = true
+		}
+	}
+	sorted := make([]uint32, 0, len(ids))
+	for s := range ids {
+		sorted = append(sorted, s)
+	}
+	sort.Slice(sorted, func(i, j int) bool { return sorted[i] < sorted[j] })
+	for _, s := range sorted {
+		fmt.Fprintf(&sb, "[%s E=%v W=%v", verifSHBShardName(s), verifSHBShortList(el[s]), verifSHBShortList(wt[s]))
+		if leaving != nil {
+			fmt.Fprintf(&sb, " L=%v", verifSHBShortList(leaving[s]))
+		}
+		sb.WriteString("] ")
+	}
+	return sb.String()
+}
+
+// verifSHBReadLeaving reads the leaving lists (ordered public keys per shard) of an epoch.
+func verifSHBReadLeaving(nc NodesCoordinator, epoch uint32) (map[uint32][]string, bool) {
+	lv, err := nc.GetAllLeavingValidatorsPublicKeys(epoch)
+	if err != nil {
+		return nil, false
+	}
+	leaving := map[uint32][]string{}
+	for s, l := range lv {
+		for _, pk := range l {
+			leaving[s] = append(leaving[s], string(pk))
+		}
+	}
+	return leaving, true
+}
